@@ -1,10 +1,10 @@
 """C14: formatting one entry never depends on the entries formatted before it.
 
 spec/emf/EmfHistory.tla        the formatter's reused state (six prefixed buffers, dimension-set map,
-                               capacity/shrink, per-call flags), a catalogue of 19 entry kinds and, orthogonal
+                               capacity/shrink, per-call flags and validation map), a catalogue of 24 entry kinds and, orthogonal
                                to the kind, the writer fault of a call (none | first byte | mid record | inside
                                the last line); TLC checks Stateless / NoResidue / PrefixKept on every reachable
-                               formatter state for 11 configuration classes, and that each of seven deliberately
+                               formatter state for 11 configuration classes, and that each of eight deliberately
                                missing resets (CONSTANT Bug) is caught by Stateless (sensitivity of the model)
 spec/emf/EmfHistoryReplay.tla  history variable: every pair (kind x fault) -> kind, triples
                                kind -> (kind x fault) -> kind, long -simulate walks; one REPLAY line each
@@ -16,7 +16,7 @@ import vlib
 from vlib import log
 
 SPECD = os.path.join(vlib.SPEC, "emf")
-BUGS = ["declNotCleared", "dimsCached", "countsDirty", "mapNotCleared", "splitHoisted", "shrinkCuts", "dimsNotCleared"]
+BUGS = ["declNotCleared", "dimsCached", "edimsMemo", "countsDirty", "mapNotCleared", "splitHoisted", "shrinkCuts", "dimsNotCleared"]
 
 def model_runs(chk, tier):
     if getattr(vlib, "SKIP_MC", False):   # VERIF_SKIP_MC: self-test only (the model does not depend on the code)
@@ -142,7 +142,7 @@ def run(prop, tier):
                 "freshly built one; distinct_nontrivial = distinct (configuration, predecessor kind, kind) pairs compared; "
                 "traces = sequences without any difference")
     chk.assumptions = [
-        "the catalogue of 19 entry kinds x 4 writer behaviours (never fails, fails on the first byte, mid record, inside the last line) and 11 configurations represents the inputs named in the property; member values vary with the position only",
+        "the catalogue of 24 entry kinds x 4 writer behaviours (never fails, fails on the first byte, mid record, inside the last line) and 11 configurations represents the inputs named in the property; member values vary with the position only",
         "a writer fault is placed with the complete output of the entry (byte budget); a faulted call of a multi-line entry is compared by decision, size and membership of every delivered byte in the entry's records (split lines come out in hash order)",
         "a freshly built formatter is the reference (its own determinism is checked once per configuration x kind)",
         "split records are compared as a multiset of lines, members of an object order-insensitively; the Timestamp of entries without one is masked",
